@@ -283,6 +283,7 @@ impl Uci {
 
                 #[cfg(jgilchrist_tcheran_verif)]
                 {
+                    util::verif::mark("M:newgamelock");
                     drop(persistent_state_handle);
                     util::verif::done("M:newgamelock");
                 }
@@ -354,7 +355,10 @@ impl Uci {
                     let mut persistent_state_handle = persistent_state.lock().unwrap();
 
                     #[cfg(jgilchrist_tcheran_verif)]
-                    util::verif::done(&format!("S{verif_search_id}:lock"));
+                    {
+                        util::verif::mark(&format!("S{verif_search_id}:lock"));
+                        util::verif::done(&format!("S{verif_search_id}:lock"));
+                    }
 
                     let best_move = search::search(
                         &game,
@@ -366,7 +370,10 @@ impl Uci {
                     );
 
                     #[cfg(jgilchrist_tcheran_verif)]
-                    util::verif::gate(&format!("S{verif_search_id}:finish"));
+                    {
+                        util::verif::gate(&format!("S{verif_search_id}:finish"));
+                        util::verif::mark(&format!("S{verif_search_id}:finish"));
+                    }
 
                     reporter.best_move(&game, best_move);
 
@@ -374,6 +381,7 @@ impl Uci {
                     {
                         util::verif::done(&format!("S{verif_search_id}:finish"));
                         util::verif::gate(&format!("S{verif_search_id}:latch"));
+                        util::verif::mark(&format!("S{verif_search_id}:latch"));
                     }
 
                     is_stopped.set();
@@ -382,6 +390,7 @@ impl Uci {
                     {
                         util::verif::done(&format!("S{verif_search_id}:latch"));
                         util::verif::gate(&format!("S{verif_search_id}:exit"));
+                        util::verif::mark(&format!("S{verif_search_id}:exit"));
                         drop(persistent_state_handle);
                         util::verif::done(&format!("S{verif_search_id}:exit"));
                     }
@@ -409,7 +418,10 @@ impl Uci {
                     self.is_stopped.wait();
 
                     #[cfg(jgilchrist_tcheran_verif)]
-                    util::verif::done("M:stopwake");
+                    {
+                        util::verif::mark("M:stopwake");
+                        util::verif::done("M:stopwake");
+                    }
                 }
 
                 self.control = None;
@@ -521,14 +533,27 @@ impl Uci {
                 #[cfg(jgilchrist_tcheran_verif)]
                 let verif_label = verif_command_label(c);
                 #[cfg(jgilchrist_tcheran_verif)]
-                util::verif::gate(&verif_label);
+                {
+                    util::verif::gate(&verif_label);
+
+                    // logged before the command takes effect, except setoption (a try-lock)
+                    if !matches!(c, UciCommand::SetOption { .. }) {
+                        util::verif::mark(&verif_label);
+                    }
+                }
 
                 let execute_result = self.execute(c)?;
 
-                // stop and ucinewgame log their own steps
+                // stop and ucinewgame complete their own steps
                 #[cfg(jgilchrist_tcheran_verif)]
-                if !matches!(c, UciCommand::Stop | UciCommand::UciNewGame) {
-                    util::verif::done(&verif_label);
+                {
+                    if matches!(c, UciCommand::SetOption { .. }) {
+                        util::verif::mark(&verif_label);
+                    }
+
+                    if !matches!(c, UciCommand::Stop | UciCommand::UciNewGame) {
+                        util::verif::done(&verif_label);
+                    }
                 }
 
                 if execute_result == ExecuteResult::Exit {
